@@ -61,6 +61,9 @@ def entry_points(nap):
     E["TsdFrame"] = lambda cv, u, d: nap.TsdFrame(cv(d["t"]), d["v2"], time_units=u)
     E["TsdTensor"] = lambda cv, u, d: nap.TsdTensor(cv(d["t"]), d["v3"], time_units=u)
     E["Ts_support"] = lambda cv, u, d: nap.Ts(cv(d["t"]), time_units=u, time_support=d["ep"])
+    E["Tsd_support"] = lambda cv, u, d: nap.Tsd(cv(d["t"]), d["v"], time_units=u, time_support=d["ep"])
+    E["TsdFrame_support"] = lambda cv, u, d: nap.TsdFrame(cv(d["t"]), d["v2"], time_units=u, time_support=d["ep"])
+    E["TsdTensor_support"] = lambda cv, u, d: nap.TsdTensor(cv(d["t"]), d["v3"], time_units=u, time_support=d["ep"])
     E["IntervalSet"] = lambda cv, u, d: nap.IntervalSet(cv(d["s"]), cv(d["e"]), time_units=u)
     E["IntervalSet_pairs"] = lambda cv, u, d: nap.IntervalSet(np.stack([cv(d["s"]), cv(d["e"])], 1), time_units=u)
     E["TsGroup"] = lambda cv, u, d: nap.TsGroup({0: cv(d["t"]), 3: cv(d["t"][::2])}, time_units=u, time_support=d["wide"])
